@@ -1042,7 +1042,7 @@ impl Check for C08 {
         "C08"
     }
     fn workloads(&mut self, tier: Tier, _seed: u64) -> Vec<(String, u64)> {
-        let k = if tier == Tier::Quick { 1 } else { 25 };
+        let k = if tier == Tier::Quick { 10 } else { 100 };
         vec![("corpus".into(), 8_000 * k), ("render".into(), 16_000 * k), ("small".into(), 6_000 * k)]
     }
     fn run(&mut self, ctx: &mut Ctx, workload: &str, _index: u64, rng: &mut Rng) {
